@@ -22,13 +22,14 @@ from .. import sysfam, statedrv
 from .. import tracecheck as tc
 
 CLAUSES = {"FoundByOid", "FoundByPath", "NoStaleOidSlot", "NoStalePathSlot", "OneOwnerPerOid", "PendingExact", "NoException"}
-GAPS = ["I", "I1", "IS", "ISS", "Q"]
+GAPS = ["I", "I1", "IS", "ISS", "Q", "X", "IX", "R"]
 
 
-def gen_state(ctx, maxlen, sides, path_style, simulate=None):
-    cfg = tc.gen_cfg(ctx, "Gen_State_%d_%s.cfg" % (maxlen, path_style),
-                     "CONSTANTS\n MaxLen = %d\n GSides = {%s}\n OidIsPath = %s\nSPECIFICATION Spec\nINVARIANT Emit\nCHECK_DEADLOCK FALSE\n"
-                     % (maxlen, ", ".join(str(s) for s in sides), "TRUE" if path_style else "FALSE"))
+def gen_state(ctx, maxlen, sides, path_style, simulate=None, ci=False):
+    cfg = tc.gen_cfg(ctx, "Gen_State_%d_%s_%s.cfg" % (maxlen, path_style, ci),
+                     "CONSTANTS\n MaxLen = %d\n GSides = {%s}\n OidIsPath = %s\n CaseVariants = %s\nSPECIFICATION Spec\nINVARIANT Emit\n"
+                     "CHECK_DEADLOCK FALSE\n"
+                     % (maxlen, ", ".join(str(s) for s in sides), "TRUE" if path_style else "FALSE", "TRUE" if ci else "FALSE"))
     if simulate:
         res = ctx.tlc("Gen_State", cfg, what="simulate state-level sequences", workers=1, count=False,
                       simulate="num=%d" % simulate[0], depth=maxlen + 1, extra=["-seed", str(simulate[1])])
@@ -43,7 +44,7 @@ def gen_state(ctx, maxlen, sides, path_style, simulate=None):
         k = json.dumps(h)
         if k not in seen:
             seen.add(k)
-            out.append({"path_style": path_style, "ops": h})
+            out.append({"path_style": path_style, "ops": h, "ci": ci})
     return out
 
 
@@ -51,14 +52,15 @@ def state_tags(case):
     """strata of the state-level family (computed from the call sequence)"""
     tags = set()
     ops = [o for o in case["ops"] if o["op"] == "update"]
-    paths = [tuple(o["path"]) for o in ops if o["path"]]
+    fold = (lambda p: tuple({7: 3, 5: 1}.get(n, n) for n in p)) if case.get("ci") else tuple   # case-insensitive side: D = d
+    paths = [fold(o["path"]) for o in ops if o["path"]]
     for a in paths:
         for b in paths:
             if a != b and b[:len(a)] == a:
                 tags.add("NESTED_PATHS")
     if case["path_style"]:
         for o in ops:
-            if o["prior"] and o["path"] and tuple(o["path"])[:len(o["prior"])] == tuple(o["prior"]) and o["prior"] != o["path"]:
+            if o["prior"] and o["path"] and fold(o["path"])[:len(o["prior"])] == fold(o["prior"]) and fold(o["prior"]) != fold(o["path"]):
                 tags.add("SELF_NESTING")        # a folder's new path lies under its old one
             if o["prior"]:
                 tags.add("PRIOR")
@@ -106,18 +108,24 @@ def run(ctx):
         cases = gen_state(ctx, 2, [0], ps)
         cases, _ = sc.slice_cases(cases, 6000 if quick else None, ctx.seed + 1)
         run_state_family(ctx, cases, "state-level sequences len 2 path_style=%s" % ps)
+        # case-insensitive side with names that differ only by case (case-only renames, stale spellings)
+        cases = gen_state(ctx, 2, [0], ps, ci=True)
+        cases, _ = sc.slice_cases(cases, 3000 if quick else None, key="stateci")
+        run_state_family(ctx, cases, "state-level sequences len 2 case-insensitive path_style=%s" % ps)
         sim = gen_state(ctx, 5 if quick else 7, [0, 1], ps, simulate=(8 if quick else 60, ctx.seed + 3))
         sim, _ = sc.slice_cases(sim, 3000 if quick else 15000, ctx.seed + 2)
         run_state_family(ctx, sim, "state-level sequences simulated path_style=%s" % ps)
     flavors = ["oid/oid", "path/oidf"] if quick else ["oid/oid", "path/oidf", "oidf/path", "path/path"]
-    fams = [("st_two2", [1, 2], 2, None, 500 if quick else None), ("st_sim4", [1, 2], 4, "sim", 300 if quick else 5000)]
-    for name, sides, nops, mode, limit in fams:
+    fams = [("st_two2", "std", [1, 2], 2, None, 500 if quick else None), ("st_sim4", "std", [1, 2], 4, "sim", 300 if quick else 5000),
+            ("st_case2", "case", [1], 2, None, 300 if quick else None)]
+    for name, uni, sides, nops, mode, limit in fams:
         if mode == "sim":
-            cases = sc.generate(ctx, name, sides, nops, GAPS, "std", simulate=(30, ctx.seed + 13))
+            cases = sc.generate(ctx, name, sides, nops, GAPS, uni, simulate=(30, ctx.seed + 13))
         else:
-            cases = sc.generate(ctx, name, sides, nops, GAPS, "std")
-        cases, _ = sc.slice_cases(cases, limit, ctx.seed * 179424673 + nops)
-        allc = [dict(c, project_state=True) for c in sc.with_flavors(cases, flavors)]
+            cases = sc.generate(ctx, name, sides, nops, GAPS, uni)
+        cases, _ = sc.slice_cases(cases, limit, key=name)
+        fl = ["oidci/oid", "pathci/oid"] if uni == "case" else flavors
+        allc = [dict(c, project_state=True) for c in sc.with_flavors(cases, fl)]
         sc.run_family(ctx, allc, "engine-reached states %s" % name, CLAUSES)
 
 
